@@ -16,9 +16,12 @@ META = dict(
 
 def plan(ctx, tier, seed):
     hs = []
-    combos = [(0, 0, 0), (1, 0, 0), (4, 0, 0)]
-    ils = [(0, 0), (1, 2), (2, 0), (0, 1)] if tier == "quick" else [(a, b) for a in range(3) for b in range(3)]
-    combos += [(2, a, b) for a, b in ils] + [(3, a, b) for a, b in ils]
+    # registered pairs: DFR8(+palette)->GR, DF24->GR, DFAN<->AN.  GR->DFR8/DF24 (modes 1, 3) are not registered: the
+    # single-file raster interfaces only accept RIGs whose number type is DFNT_UCHAR8, which GR images created with
+    # DFNT_UINT8 do not have (documented limitation of the old interfaces, see DESIGN.md 9.3).
+    combos = [(0, 0, 0), (5, 0, 0), (4, 0, 0)]
+    ils = [(0, 0), (0, 1), (0, 2), (1, 2), (2, 0)] if tier == "quick" else [(a, b) for a in range(3) for b in range(3)]
+    combos += [(2, a, b) for a, b in ils]
     for mode, il, ril in combos:
         hs.append(H("C15.S1.m%d.il%d.r%d" % (mode, il, ril), "C15", src="harness/C15/s1_cross.c", units=libhdf_units(), models=["memio", "herr", "memloops", "printf"],
                     defs={"MODE": mode, "IL": il, "RIL": ril, "MEMIO_DISK_SZ": 8192}, unwind=5000, kind="S", timeout=1500, symbolic="pixels, palette, description text",
